@@ -96,6 +96,9 @@ def run_filler_check(ctx, PID, impl_oracle, proof_target, select=False):
     for fmt in fmts:
         sub = cases if fmt == "fb" else cases[:400]
         per_fmt[fmt] = (sub, common.run_impl("filler_run.py", {"cases": sub, "format": fmt, "select": select}, timeout=3000)["results"])
+    # the same histories with the value one level down in the metadata object, updated in place by the caller
+    sub = [c for c in cases if any(op[0] == "M" for op in c["ops"])][:ctx.scale(120, 1200)]
+    per_fmt["fb+nested"] = (sub, common.run_impl("filler_run.py", {"cases": sub, "format": "fb+nested", "select": select}, timeout=3000)["results"])
     # 1. property oracle on the implementation
     found = 0
     for fmt, (sub, rs) in per_fmt.items():
@@ -113,7 +116,9 @@ def run_filler_check(ctx, PID, impl_oracle, proof_target, select=False):
                 raise Broken("Model/Filler.v no longer compiles against the generated kernels", log[-2000:])
             ms = model_eval(PID, cases)
             for fmt, (sub, rs) in per_fmt.items():
-                for c, r, m in zip(sub, rs, ms):
+                mof = {id(c): m for c, m in zip(cases, ms)}
+                for c, r in zip(sub, rs):
+                    m = mof[id(c)]
                     d = compare(c, r, m)
                     if d:
                         disagreements += 1
